@@ -151,10 +151,7 @@ func (lm *lemmas) index(in ssa.Instruction, s, idx ssa.Value) (ok bool, why stri
 	case fk == "lexer.(*Scanner).advance" && ds == "$.source" && di == "$.current":
 		ok, why = lm.lexerAdvanceSafe()
 		return ok, why, true
-	case fk == "parser.(*Parser).peek" && ds == "$.tokens" && di == "$.current":
-		ok, why = lm.parserCursorSafe()
-		return ok, why, true
-	case fk == "parser.(*Parser).previous" && ds == "$.tokens" && di == "($.current-1)":
+	case lm.parserCursorIndex(fn, fk, ds, di):
 		ok, why = lm.parserCursorSafe()
 		return ok, why, true
 	case lm.callArgumentsParam(fn, s):
@@ -250,4 +247,61 @@ func (lm *lemmas) parserCursorSafe() (bool, string) {
 	ok, why := parserCursorLemma(lm.p)
 	lm.parseOK, lm.parseWhy = &ok, why
 	return ok, why
+}
+
+// parserCursorIndex: the index expression reads the parser's token list at its position (peek) or one before it
+// (previous) — in the primitive itself or in a helper only that primitive uses (a cursor type's current()/last()).
+func (lm *lemmas) parserCursorIndex(fn *ssa.Function, fk, ds, di string) bool {
+	cp := parserCursor(lm.p)
+	if cp == nil || fnPkgName(fn) != "parser" || fn.Signature.Recv() == nil {
+		return false
+	}
+	recv := typeStr(derefT(fn.Signature.Recv().Type()))
+	var toks, pos string
+	switch recv {
+	case cp.toksType:
+		toks, pos = "$."+cp.toksField, "$."+cp.posField
+	case "parser.Parser":
+		toks, pos = "$"+cp.path+"."+cp.toksField, "$"+cp.path+"."+cp.posField
+	default:
+		return false
+	}
+	if ds != toks {
+		return false
+	}
+	switch di {
+	case pos:
+		// 0 <= position < len(tokens) is an invariant of the cursor: reading the token at the position is safe anywhere
+		return true
+	case "(" + pos + "-1)":
+		// the token before the position: only through previous() (whose uses follow a consumption — checked on the
+		// parse functions) or advance() (which has just moved, or is at the end having moved before)
+		return lm.reachedOnlyThrough(fn, map[string]bool{"parser.(*Parser).previous": true, "parser.(*Parser).advance": true}, 0)
+	}
+	return false
+}
+
+// reachedOnlyThrough: fn is one of the named functions, or every call of it sits in a function that is.
+func (lm *lemmas) reachedOnlyThrough(fn *ssa.Function, roots map[string]bool, depth int) bool {
+	if roots[lm.p.FuncKey(fn)] {
+		return true
+	}
+	if depth > 3 {
+		return false
+	}
+	if _, existing := expectedFuncs[lm.p.FuncKey(fn)]; existing {
+		return false
+	}
+	css := lm.p.CallSites(fn)
+	n := 0
+	for _, cs := range css {
+		if cs.Parent() == fn {
+			continue
+		}
+		n++
+		if cs.Common().StaticCallee() != fn || !lm.reachedOnlyThrough(cs.Parent(), roots, depth+1) {
+			return false
+		}
+	}
+	return n > 0
 }
